@@ -442,7 +442,7 @@ func TestVerifRace_Transfers(t *testing.T) {
 	ctl := hookctl.Install(vkit.Seed())
 	defer ctl.Uninstall()
 	ctl.SetStress(true)
-	r.ParallelCases(vkit.N(16, 400), 2, func(i int) { transferRun(r, ctl, i) })
+	r.ParallelCases(vkit.N(30, 600), 3, func(i int) { transferRun(r, ctl, i) })
 	r.Count("interleaving_signatures", int64(ctl.Signatures()))
 	for p, c := range ctl.Counts() {
 		r.Count("hook:"+p, c)
